@@ -10,7 +10,7 @@ git -C /repo worktree add -q --detach "$wt" HEAD || exit 2
 if ! git -C "$wt" apply "$patch"; then echo "PATCH-DOES-NOT-APPLY $patch"; git -C /repo worktree remove --force "$wt"; exit 2; fi
 mkdir -p "$sc"
 for p in "$@"; do
-  LISPSIM_REPO=$wt LISPSIM_BUILD=$sc/build LISPSIM_REPLAYS=$sc/replays LISPSIM_EVID=$sc/evid ${LISPSIM_ENV:-} /verif/check "$p" "$tier" > "$sc/$p.out" 2>&1
+  LISPSIM_REPO=$wt LISPSIM_BUILD=$sc/build LISPSIM_REPLAYS=$sc/replays LISPSIM_EVID=$sc/evid ${LISPSIM_ENV:-} "$(dirname "$0")/../check" "$p" "$tier" > "$sc/$p.out" 2>&1
   rc=$?
   echo "== $p $tier exit=$rc :: $(grep -c '^VIOLATION' "$sc/$p.out") violation line(s)"
   grep -A2 '^VIOLATION' "$sc/$p.out" | grep -v '^--' | cut -c1-260 | head -${MUT_LINES:-12}
